@@ -49,20 +49,27 @@ var Leaked int
 
 // Replica is one node's catalogue.
 type Replica struct {
-	Name  string
-	DB    *badger.DB
-	Conn  *cluster.Conn
-	Alloc *storage.Allocator
-	Tr    *raft.RaftTransport
-	G     *ScriptGroup
-	DM    *storage.DatasetManager
+	KeepDB bool // Close leaves the store open (it outlives this incarnation)
+	Name   string
+	DB     *badger.DB
+	Conn   *cluster.Conn
+	Alloc  *storage.Allocator
+	Tr     *raft.RaftTransport
+	G      *ScriptGroup
+	DM     *storage.DatasetManager
 }
 
 // NewReplica builds a manager for node selfId in a cluster whose members are
 // `members` (added to the Conn before the allocator starts, so no membership
 // notification is pending).
 func NewReplica(name string, selfId uint64, members []uint64) *Replica {
-	r := &Replica{Name: name, DB: hutil.MemDB(), G: &ScriptGroup{}}
+	return NewReplicaOnDB(name, selfId, members, hutil.MemDB())
+}
+
+// NewReplicaOnDB builds a (re)started node over an existing store; Close does not close a DB passed in here
+// unless OwnsDB is set.
+func NewReplicaOnDB(name string, selfId uint64, members []uint64, db *badger.DB) *Replica {
+	r := &Replica{Name: name, DB: db, G: &ScriptGroup{}}
 	var err error
 	r.Conn, err = cluster.NewConn(selfId, "127.0.0.1:1", "")
 	if err != nil {
@@ -105,7 +112,9 @@ func (r *Replica) Close() {
 		g.Stop()
 	}
 	r.Alloc.Stop()
-	r.DB.Close()
+	if !r.KeepDB {
+		r.DB.Close()
+	}
 }
 
 // ---- catalogue log -----------------------------------------------------------
